@@ -37,7 +37,7 @@ let () =
     | _ -> failwith "args");
   register "c02.thrift_roundtrip" (function
     | [b] ->
-        (match Model.decode_struct (bytes_of_tok b) with
+        (match Model.decode_thrift (bytes_of_tok b) with
          | Some (t, rest) -> tok_of_bytes (Model.encode t) ^ " " ^ tok_of_bytes rest
          | None -> "NONE")
     | _ -> failwith "args")
